@@ -11,10 +11,10 @@ from ..cfg import NORMAL, ALL, walk_local, has_suspension
 from ..facts import (runs_only_when, cfg_of, call_name, calls_in, targets_of, guard_atoms,
                      is_attr, is_name, enclosing, local_assigns, kwarg,
                      const_value, strip_await, resolve_local, bind_args,
-                     writers_of)
+                     writers_of, names_in)
 from ..loader import txt, AnchorError
 from ..callgraph import CallGraph
-from ..escape import Escapes
+from ..escape import Escapes, handler_names
 from ..progress import Progress
 from ..report import VERIF, Site
 from .. import regexfacts as rx
@@ -69,6 +69,7 @@ def check(ctx) -> None:
     r611(ctx)
     r612(ctx)
     r613(ctx)
+    r614(ctx, cg)
     ctx.extra_coverage['call_graph'] = {
         'functions': len(cg.funcs), 'call_sites_resolved': cg.resolved,
         'call_sites_unresolved': cg.unresolved,
@@ -1472,3 +1473,245 @@ def r613(ctx) -> None:
     if n < 4:
         raise AnchorError(f'only {n} third-party SASL call(s) with client '
                           f'data found')
+
+
+# ----------------------------------------------------------------------
+IMAP_CONN = 'pymap/imap/__init__.py'
+
+
+def _handler_types(f, call_name_: str) -> set[str]:
+    """Exception classes named by the non-generic handlers of the try
+    statement(s) of `f` whose body contains a call of `call_name_`."""
+    out: set[str] = set()
+    for t in walk_local(f.node):
+        if not isinstance(t, ast.Try):
+            continue
+        if not any(call_name(c) == call_name_ for st in t.body
+                   for c in calls_in(st)):
+            continue
+        for h in t.handlers:
+            if h.type is None:
+                continue
+            for nm in handler_names(f, h.type):
+                if nm not in ('Exception', 'BaseException'):
+                    out.add(nm)
+    return out
+
+
+def r614(ctx, cg) -> None:
+    """Between the socket and the parser, and between the parser and the
+    command handlers, the connection object runs code of its own on client
+    bytes (literal continuation, the IDLE "DONE" line, the SASL exchange).
+    Whatever leaves those helpers is answered by the handlers of the command
+    loop; anything the loop only knows as `except Exception` is the
+    * BYE [SERVERBUG] answer."""
+    R = ctx.rule('R6.14', 'exceptions of the connection\'s own I/O helpers '
+                 'are answered by a specific handler of the command loop', 6)
+    proj = ctx.proj
+    loop = proj.func(IMAP_CONN, 'IMAPConnection._run_state')
+    roots = {n: proj.try_func(IMAP_CONN, 'IMAPConnection.' + n)
+             for n in ('read_command', 'idle', 'authenticate')}
+    if any(v is None for v in roots.values()):
+        raise AnchorError('IMAPConnection.read_command/idle/authenticate '
+                          'vanished')
+    allowed = {n: _handler_types(loop, n) for n in roots}
+    if not all(allowed.values()):
+        raise AnchorError('the command loop no longer calls read_command / '
+                          'idle / authenticate under specific handlers')
+    cut = [proj.func(CMDS, 'Commands.parse')] + [
+        f for n in ('do_command', 'do_authenticate', 'receive_updates',
+                    'do_cleanup', 'do_greeting')
+        for f in [proj.try_func('pymap/imap/state.py',
+                                'ConnectionState.' + n)] if f is not None]
+    behind = {id(f.node) for f in cg.reachable(cut)}
+    funcs = [f for f in cg.reachable(list(roots.values()))
+             if id(f.node) not in behind]
+    es = Escapes(proj, cg)
+    es.solve(funcs)
+    ctx.extra_coverage['connection_helpers'] = {
+        'functions': sorted(f.qualname for f in funcs),
+        'handled_by_loop': {k: sorted(v) for k, v in allowed.items()}}
+    seen = 0
+    for name, root in roots.items():
+        for e in sorted(es.of(root), key=lambda e: (e.origin, e.line)):
+            if e.exc and any(es.is_sub(None, e.exc, a)
+                             for a in allowed[name]):
+                seen += 1
+                continue
+            origin = e.origin.split('::')[1]
+            rel = e.origin.split('::')[0]
+            f = proj.try_func(rel, origin)
+            st = Site(rel, e.line, origin)
+            key = f'{name}: {origin}: {e.what} -> {e.exc}'
+            seen += 1
+            reason = _invariant_ok(ctx, cg, es, e) or \
+                (_conn_invariant(ctx, es, f, e) if f is not None else None)
+            if reason is not None:
+                R.ok(st, None, key, f'invariant (checked): {reason}')
+            else:
+                R.fail(st, None, key,
+                       f'{e.exc} from {e.origin}:{e.line} ({e.what}) leaves '
+                       f'IMAPConnection.{name} and the command loop has no '
+                       f'handler for it except `except Exception`: the '
+                       f'client that sent the bytes gets * BYE [SERVERBUG] '
+                       f'and is disconnected instead of a tagged BAD/NO '
+                       f'(handled there: {sorted(allowed[name])})')
+    if seen < 6:
+        raise AnchorError(f'only {seen} escaping site(s) of the connection '
+                          f'helpers analysed (6 confirmed by hand)')
+
+
+def _conn_invariant(ctx, es, f, e) -> str | None:
+    proj = ctx.proj
+    # (i) `raise <local>` that re-raises what an awaited task raised: the
+    # task bodies are analysed through their create_task() call sites
+    if e.what.startswith('raise ') and f is not None:
+        for r in walk_local(f.node):
+            if isinstance(r, ast.Raise) and r.lineno == e.line and \
+                    isinstance(r.exc, ast.Name):
+                bound = {h.name for h in walk_local(f.node)
+                         if isinstance(h, ast.ExceptHandler) and h.name}
+                defs = local_assigns(f, r.exc.id)
+                if defs and all(
+                        v is None or const_value(v) == (True, None)
+                        or (isinstance(v, ast.Name) and v.id in bound)
+                        for _, v in defs):
+                    return (f'`{r.exc.id}` is only ever an exception caught '
+                            f'from an awaited task, whose body is analysed '
+                            f'at its create_task() call site')
+    # (ii) raise TypeError(expected) for an expectation that is not a
+    # continuation: every concrete expectation is one
+    if e.what == 'raise TypeError' and f is not None:
+        tests = [c for t in walk_local(f.node) if isinstance(t, ast.If)
+                 for c in ast.walk(t.test) if isinstance(c, ast.Call)
+                 and call_name(c) == 'isinstance' and len(c.args) == 2]
+        for t in tests:
+            accepted = {txt(x).split('.')[-1] for x in (
+                t.args[1].elts if isinstance(t.args[1], ast.Tuple)
+                else [t.args[1]])}
+            subs = {c.name for c in proj.subclasses('ParsingExpectation')
+                    if c.name != 'ParsingExpectation'}
+            built = [c for g in proj.all_funcs('pymap/')
+                     for c in calls_in(g.node, 'ParsingInterrupt')]
+            if subs and subs <= accepted and built and all(
+                    len(c.args) == 1 and txt(c.args[0]) == 'self'
+                    for c in built):
+                return (f'every ParsingInterrupt carries `self` of a '
+                        f'ParsingExpectation and the only concrete '
+                        f'expectation(s) {sorted(subs)} are accepted by the '
+                        f'isinstance test')
+    # (iii) b64decode(<bytes>) raises binascii.Error only, which is caught
+    if e.what == 'b64decode' and f is not None:
+        for c in calls_in(f.node, 'b64decode'):
+            if c.lineno != e.line or not c.args:
+                continue
+            vals = resolve_local(f, c.args[0])
+            ann = {a.arg: txt(a.annotation) for a in f.node.args.args
+                   if a.annotation is not None}
+            if vals and all(
+                    (isinstance(v, ast.Call) and call_name(v) == 'bytes')
+                    or (isinstance(v, ast.Name) and ann.get(v.id) == 'bytes')
+                    for v in vals) and es.caught(f, c, 'Error'):
+                return ('b64decode of a bytes object raises binascii.Error '
+                        'only, and the call is under `except binascii.Error`')
+    # (iv) `if not P.match(buf): raise` where P matches every string that
+    # contains a line feed, and buf is a line that was read up to its LF
+    if e.what.startswith('raise ') and f is not None and f.cls is not None:
+        cfg = cfg_of(f)
+        for n in cfg.find(lambda n: isinstance(n.stmt, ast.Raise)
+                          and n.stmt.lineno == e.line):
+            for t in [t for t in cfg.nodes if t.kind == 'test'
+                      and cfg.controlled_by(n, t, 't')]:
+                at = guard_atoms(t.stmt.test)
+                if len(at) != 1 or at[0][1]:
+                    continue
+                for v in resolve_local(f, ast.parse(at[0][0],
+                                                    mode='eval').body):
+                    if not (isinstance(v, ast.Call) and call_name(v) ==
+                            'match' and isinstance(v.func.value,
+                                                   ast.Attribute)
+                            and len(v.args) == 1):
+                        continue
+                    pa = f.cls.find_attr(v.func.value.attr)
+                    if not pa or not isinstance(pa[1], ast.Call) or \
+                            not pa[1].args:
+                        continue
+                    ok, src = const_value(pa[1].args[0])
+                    if not ok or rx.total_on_lf_strings(src) is not True:
+                        continue
+                    arg = txt(v.args[0])
+                    if arg not in f.params():
+                        continue
+                    why = _lf_terminated_argument(proj, f, arg)
+                    if why:
+                        return (f'{v.func.value.attr} = {src!r} matches '
+                                f'every byte string that contains LF, and '
+                                f'{why}')
+    return None
+
+
+def _lf_terminated_argument(proj, f, pname: str) -> str | None:
+    """Every caller passes a value obtained from read_continuation(), which
+    ends with what readline() returned; readline() returns only after a line
+    that ends in LF."""
+    idx = f.params().index(pname) - (1 if f.params()[:1] in (['self'],
+                                                             ['cls']) else 0)
+    conn = proj.cls(IMAP_CONN, 'IMAPConnection')
+    rc = conn.own_method('read_continuation')
+    rl = conn.own_method('readline')
+    if rc is None or rl is None:
+        return None
+    sites = [(g, c) for g in proj.all_funcs('pymap/')
+             if f.name in g.module.src for c in calls_in(g.node, f.name)]
+    if not sites:
+        return None
+    for g, c in sites:
+        if len(c.args) <= idx:
+            return None
+        vals = resolve_local(g, c.args[idx])
+        if not vals or not all(
+                isinstance(strip_await(v), ast.Call) and
+                call_name(strip_await(v)) == 'read_continuation'
+                for v in vals):
+            return None
+    # read_continuation: every returned value contains the readline() result
+    line_names = {t.id for s_ in walk_local(rc.node)
+                  if isinstance(s_, ast.Assign)
+                  and isinstance(strip_await(s_.value), ast.Call)
+                  and call_name(strip_await(s_.value)) == 'readline'
+                  for t in s_.targets if isinstance(t, ast.Name)}
+    rets = [r for r in walk_local(rc.node) if isinstance(r, ast.Return)]
+    if not rets or not line_names:
+        return None
+
+    def mentions(e_, depth=0):
+        if names_in(e_) & line_names:
+            return True
+        if depth > 3:
+            return False
+        return any(v is not None and v is not x and mentions(v, depth + 1)
+                   for x in ast.walk(e_) if isinstance(x, ast.Name)
+                   for v in resolve_local(rc, x))
+    for r in rets:
+        if r.value is None or not mentions(r.value):
+            return None
+        # ... as a suffix: a concatenation whose right-most operand is it
+        for v in resolve_local(rc, r.value):
+            while isinstance(v, ast.Call) and v.args and call_name(v) in (
+                    'memoryview', 'bytes', 'bytearray'):
+                v = v.args[0]
+            for vv in resolve_local(rc, v):
+                if isinstance(vv, ast.BinOp) and isinstance(vv.op, ast.Add):
+                    if not mentions(vv.right):
+                        return None
+    # readline: returns only behind the `endswith(b'\n')` test
+    cfg = cfg_of(rl)
+    tests = [t for t in cfg.nodes if t.kind == 'test'
+             and "endswith(b'\\n')" in txt(t.stmt.test)]
+    retn = cfg.find(lambda n: isinstance(n.stmt, ast.Return))
+    if not tests or not retn or not all(cfg.dominated_by(n, tests)
+                                        for n in retn):
+        return None
+    return (f'all {len(sites)} caller(s) pass the result of '
+            f'read_continuation(), which ends with a line readline() '
+            f'returned only after seeing its LF')
